@@ -34,8 +34,8 @@ type tcase struct {
 	Neighbour int
 }
 
-var ratePats = [][]float64{{1}, {0.5}, {0.5, 0.25}}
-var pctMenu = []float64{-100, -90, -50, -1, 1, 50, 90, 99, 100, 0}
+var ratePats = [][]float64{{1}, {0.5}, {0.5, 0.25}, {0.4}} // 1/0.4 = 2.5: sums of 1/rate that end in .5
+var pctMenu = []float64{-100, -90, -50, -25, -1, 1, 25, 50, 90, 99, 100, 0} // 25 and 50: k = |p|/100*n ends in .5 for small n
 var intervals = []time.Duration{time.Second / 2, time.Second, 10 * time.Second}
 var pctStats = []string{"count", "mean", "sum", "sum_squares", "upper", "lower"}
 
